@@ -290,6 +290,7 @@ pub struct JudgeStats {
     pub r1_after_tz_change: u64,
     pub fault_relaxations_used: u64,
     pub racing_file_updates: u64,
+    pub q_exclusions: u64,
 }
 
 fn in_force(hist: &[Hist], seq: u64) -> usize {
@@ -312,13 +313,18 @@ pub fn judge(
     let none = ConvFaults::default();
     // per worker: seq of its first invocation; extra candidates from faulted conversions
     let mut first_inv: HashMap<usize, u64> = HashMap::new();
-    let mut extra: HashMap<usize, Vec<(Option<String>, Desig)>> = HashMap::new();
+    let mut extra: HashMap<usize, Vec<(Option<String>, Desig, u64)>> = HashMap::new();
+    // per worker: for every earlier conversion of this thread, its invocation and the TZ values
+    // that can explain its result at all (rule Q: once the thread has demonstrably used another
+    // TZ value, a zone for the current value must have been loaded after that)
+    let mut used: HashMap<usize, Vec<(u64, BTreeSet<Option<String>>)>> = HashMap::new();
     // every answer any designation of this run gives (to decide whether a check discriminates)
     for c in &o.convs {
         if c.first_on_worker {
             // a fresh thread (first use, or respawned): nothing of the old thread's life counts
             first_inv.insert(c.worker, c.inv_seq);
             extra.remove(&c.worker);
+            used.remove(&c.worker);
         }
         match &c.res {
             Res::Panic(p) => {
@@ -383,7 +389,7 @@ pub fn judge(
             }
             for tz in &tzs {
                 for d in designate_nd(std::slice::from_ref(tz), &sns, &fss, &c.faults, &mut zc) {
-                    extra.entry(c.worker).or_default().push((tz.clone(), d));
+                    extra.entry(c.worker).or_default().push((tz.clone(), d, c.inv_seq));
                 }
             }
             stats.racing_file_updates += 1;
@@ -393,9 +399,16 @@ pub fn judge(
             for i in inv_idx..=hi {
                 let h = &hist[i];
                 let d = designate(&h.tz, &h.fs, &h.sysname, &c.faults, &mut zc);
-                extra.entry(c.worker).or_default().push((h.tz.clone(), d));
+                extra.entry(c.worker).or_default().push((h.tz.clone(), d, c.inv_seq));
             }
         }
+        // rule Q: the latest earlier conversion of this thread that no zone designated under
+        // `tz` can explain marks the earliest moment a zone for `tz` can have been loaded
+        let floor_seq = |tz: &Option<String>, used: &HashMap<usize, Vec<(u64, BTreeSet<Option<String>>)>>| -> u64 {
+            used.get(&c.worker)
+                .map(|v| v.iter().filter(|(_, ex)| !ex.contains(tz)).map(|(s, _)| *s).max().unwrap_or(0))
+                .unwrap_or(0)
+        };
         // candidates
         let mut cands: Vec<Desig> = Vec::new();
         let mut keys: BTreeSet<String> = BTreeSet::new();
@@ -403,6 +416,11 @@ pub fn judge(
         for i in cand_lo..=hi {
             let h = &hist[i];
             if !v.contains(&h.tz) {
+                continue;
+            }
+            let fl = floor_seq(&h.tz, &used);
+            if fl > 0 && i < in_force(hist, fl) {
+                stats.q_exclusions += 1;
                 continue;
             }
             let d = dmemo
@@ -415,8 +433,8 @@ pub fn judge(
         }
         let n_regular = cands.len();
         if let Some(ex) = extra.get(&c.worker) {
-            for (tz, d) in ex {
-                if v.contains(tz) && keys.insert(d.key()) {
+            for (tz, d, seq) in ex {
+                if v.contains(tz) && *seq >= floor_seq(tz, &used) && keys.insert(d.key()) {
                     cands.push(d.clone());
                 }
             }
@@ -438,6 +456,35 @@ pub fn judge(
             if k >= n_regular {
                 stats.fault_relaxations_used += 1;
             }
+            // which TZ values can explain this result at all (over the thread's whole life)
+            let mut ex: BTreeSet<Option<String>> = BTreeSet::new();
+            for i in lo..=hi {
+                let h = &hist[i];
+                if ex.contains(&h.tz) {
+                    continue;
+                }
+                let d = dmemo
+                    .entry(i)
+                    .or_insert_with(|| designate(&h.tz, &h.fs, &h.sysname, &none, &mut zc))
+                    .clone();
+                if let Some(z) = zc.get(&d) {
+                    if answer(z, c.api, c.t) == c.res {
+                        ex.insert(h.tz.clone());
+                    }
+                }
+            }
+            if let Some(e) = extra.get(&c.worker) {
+                for (tz, d, _) in e {
+                    if !ex.contains(tz) {
+                        if let Some(z) = zc.get(d) {
+                            if answer(z, c.api, c.t) == c.res {
+                                ex.insert(tz.clone());
+                            }
+                        }
+                    }
+                }
+            }
+            used.entry(c.worker).or_default().push((c.inv_seq, ex));
         }
         // discriminating? some zone designated at another moment of the run (or any pool zone)
         // would have answered differently
